@@ -570,6 +570,12 @@ func caseSensitiveVariable(v variables.RuleVariable) bool {
 // are lower-cased too - except the one that follows a backslash: lower-casing \S, \D, \W or \B
 // would turn the class into its opposite.
 func keyRegexSource(v variables.RuleVariable, rx string) string {
+	return KeyRegexSource(v, rx)
+}
+
+// KeyRegexSource is keyRegexSource for the run-time counterparts of the target directives
+// (ctl:ruleRemoveTargetById/ByTag/ByMsg), which must compile a regex key the same way.
+func KeyRegexSource(v variables.RuleVariable, rx string) string {
 	if caseSensitiveVariable(v) {
 		return rx
 	}
